@@ -116,6 +116,12 @@ def gen_file(rng, fid, journald):
         trigger = "long-line"
         size = rng.choice([65535, 65536, 65537, 1 << 20])
         lines.insert(rng.randrange(len(lines) + 1), "x" * size)
+    elif x < 0.11 and recs:
+        # a genuine record that is itself longer than 64 KiB (a very deep path)
+        trigger = "long-record"
+        big = rng.choice([r for r in recs if r.get("expect") and "name" in dict(r["fields"])] or recs)
+        deep = "/deep" * 14000
+        big["fields"] = [(k, (v.rsplit("/", 1)[0] + deep + "/" + v.rsplit("/", 1)[1]) if k == "name" else v) for (k, v) in big["fields"]]
     elif x < 0.14:
         trigger = "invalid-utf8"
         lines.insert(rng.randrange(len(lines) + 1), b"Jan  5 host kernel: \xff\xfe\x80 broken bytes")
@@ -272,6 +278,9 @@ def run(ctx):
             missing = sorted(want - got)
             extra = sorted(t for t in got if t in file_tags and t not in want)
             hexprof_names = {name_tag(l) for l in file_recs if logsgen.needs_hex(dict((k, v) for (k, v) in l["fields"]).get("profile", ""))}
+            if not optional and (re.search(r"^profile\s*\{", text, re.M) or "unknown log type: :map[]" in (err.decode("utf-8", "replace") + text)):
+                viol("C14/rules/nameless-profile%s" % cls, "f%d %s: a rule block without a profile name is printed (an event that is not in the input)" % (fid, case["cmd"]),
+                     dict(case, data=_head(path)))
             if missing and filt is not None and set(missing) <= hexprof_names:
                 viol("C14/rules/missing/filter-on-hex-encoded-profile", "f%d %s: no rule for record(s) %s" % (fid, case["cmd"], missing[:5]), dict(case, data=_head(path)))
             elif missing:
@@ -280,8 +289,17 @@ def run(ctx):
                 viol("C14/rules/unexpected%s" % cls, "f%d %s: rules for record(s) %s that should not be reported" % (fid, case["cmd"], extra[:5]), dict(case, data=_head(path)))
             continue
         got = []
-        for line in text.split("\n"):
+        body = text[:-1] if text.endswith("\n") else text
+        out_lines = body.split("\n") if body != "" else []
+        if mode == "raw" and out_lines == [""]:
+            out_lines = []          # raw mode prints one newline when there is nothing to report
+        empties = 0
+        for line in out_lines:
             if not line.strip():
+                empties += 1
+                if empties <= len(optional):
+                    continue        # a truncated (malformed) record may be shown as an empty entry
+                viol("C14/%s/empty-entry%s" % (mode, cls), "f%d %s: an empty event is reported (no input record is empty)" % (fid, case["cmd"]), dict(case, data=_head(path)))
                 continue
             t = tag_of(line)
             if t is None:
